@@ -20,13 +20,34 @@ def main():
         else:
             ids.append(args[i])
             i += 1
+    # default: a scratch worktree of /repo's HEAD (checks run with WENCRY_REPO pointing at it), so that an interrupted run
+    # never leaves /repo modified; --in-repo applies to /repo itself (git -C /repo apply ... / checkout -- .)
+    R = "/repo"
+    if "--in-repo" in ids:
+        ids.remove("--in-repo")
+    else:
+        R = "/tmp/seed/_apply"
+        if not os.path.isdir(R):
+            os.makedirs("/tmp/seed", exist_ok=True)
+            subprocess.run(["git", "-C", "/repo", "worktree", "prune"])
+            subprocess.run(["git", "-C", "/repo", "worktree", "add", "--detach", R, "HEAD"], capture_output=True)
+        subprocess.run(["git", "-C", R, "checkout", "-q", "--detach", subprocess.run(["git", "-C", "/repo", "rev-parse", "HEAD"], capture_output=True, text=True).stdout.strip()])
+        subprocess.run(["git", "-C", R, "checkout", "--", "."])
+    os.environ["WENCRY_REPO"] = R
+    # the checks regenerate coq/Gen and rebuild in place: run them in a private copy of /verif so that work going on in
+    # /verif itself is not disturbed (and does not disturb the run)
+    global V
+    if R != "/repo":
+        V2 = "/tmp/seed/_verif"
+        subprocess.run(["rsync", "-a", "--delete", "--exclude", ".git", "--exclude", "replays", "--exclude", "seeded", V + "/", V2 + "/"], check=True)
+        V = V2
     if not ids:
         ids = [c["property_id"] for c in json.load(open(os.path.join(V, "MANIFEST.json")))["checks"]]
-    st = subprocess.run(["git", "-C", "/repo", "status", "--porcelain"], capture_output=True, text=True).stdout.strip()
+    st = subprocess.run(["git", "-C", R, "status", "--porcelain"], capture_output=True, text=True).stdout.strip()
     if st:
-        print("refusing: /repo has uncommitted changes:\n" + st)
+        print("refusing: %s has uncommitted changes:\n" % R + st)
         return 2
-    r = subprocess.run(["git", "-C", "/repo", "apply", patch], capture_output=True, text=True)
+    r = subprocess.run(["git", "-C", R, "apply", patch], capture_output=True, text=True)
     if r.returncode != 0:
         print("patch does not apply: " + r.stderr)
         return 2
@@ -48,8 +69,8 @@ def main():
                     pass
             print("%s %s exit=%d violations=%d%s %.0fs  %s" % (pid, "FIRED" if p.returncode == 1 and viol else "quiet", p.returncode, len(viol), " (no-failing-input-found)" if nofail else "", time.time() - t0, what), flush=True)
     finally:
-        subprocess.run(["git", "-C", "/repo", "checkout", "--", "."])
-        subprocess.run(["git", "-C", "/repo", "clean", "-fdq", "--", "kernel", "valget"])
+        subprocess.run(["git", "-C", R, "checkout", "--", "."])
+        subprocess.run(["git", "-C", R, "clean", "-fdq", "--", "kernel", "valget"])
     print(json.dumps(res))
     return 0
 
